@@ -1,2 +1,420 @@
-/-! Line-protocol driver stub for the pipe cluster (to be written by the cluster owner). -/
-def main : IO Unit := IO.println "bad-op"
+import J5V.Go.Hex
+import J5V.Pipe.Service
+import J5V.Pipe.Walk
+import J5V.Pipe.List
+/-! Line-protocol driver for the pipe cluster (C16), core only. One op per input line, one result
+per output line; see `/verif/harness/PROTOCOL-pipe.md`.
+
+The driver parses the structured package of a `chain` op, hands the declared services to the
+composed service model (`J5V.Pipe.chainService`), the schemas to the graph walks
+(`J5V.Pipe.walk`, `J5V.Pipe.collect`) and prints the canonical summary the Go harness prints for
+the client API the real pipeline produced. The translation *op → model input* (token parsing,
+hoisting of inline schemas into named graph nodes) is glue, validated by the stream only. -/
+open J5V.Go J5V.Compile J5V.Pipe
+
+abbrev S := String
+
+def strOf (s : S) : Str := s.toUTF8.toList.map (·.toNat)
+def ofStr (s : Str) : S := Str.toString s
+
+/-! ## the structured package -/
+
+inductive TType where
+  | scalar (k : S)
+  | ref (sub : S) (name : S)
+  | ext (pkg : S) (name : S)
+  | arr (e : TType)
+  | map (e : TType)
+  | iobj (props : List (S × S × TType))
+  | ione (props : List (S × S × TType))
+  | ienum (opts : List S)
+  deriving Inhabited
+
+abbrev TProp := S × S × TType   -- name, flags, type
+
+structure TSchema where
+  kind : S
+  name : S
+  props : List TProp
+  opts : List S
+
+structure TMethod where
+  name : S
+  verb : S
+  path : Str
+  req : List TProp
+  hasResp : Bool
+  resp : List TProp
+  list : Bool
+
+structure TService where
+  name : S
+  base : Option Str
+  methods : List TMethod
+
+structure TSpec where
+  pkg : S
+  schemas : List TSchema
+  services : List TService
+  nEntities : Nat
+
+/-! ## token parser (prefix notation with counts) -/
+
+abbrev P := StateT (List S) Option
+
+def tok : P S := do
+  match (← get) with
+  | [] => failure
+  | t :: ts => set ts; pure t
+
+def num : P Nat := do
+  match (← tok).toNat? with
+  | some n => if n > 10000 then failure else pure n
+  | none => failure
+
+def rep {α} (n : Nat) (p : P α) : P (List α) := do
+  let mut out := #[]
+  for _ in [0:n] do
+    out := out.push (← p)
+  pure out.toList
+
+def scalarKinds : List S :=
+  ["str", "i32", "i64", "u32", "u64", "f32", "f64", "bool", "bytes", "dec", "date", "ts", "id62", "uuid", "key", "any"]
+
+mutual
+  partial def pType : P TType := do
+    let k ← tok
+    match k with
+    | "R" => do let sub ← tok; let n ← tok; pure (.ref sub n)
+    | "X" => do let p ← tok; let n ← tok; pure (.ext p n)
+    | "A" => do pure (.arr (← pType))
+    | "M" => do pure (.map (← pType))
+    | "IO" => do pure (.iobj (← pProps))
+    | "IU" => do pure (.ione (← pProps))
+    | "IE" => do let n ← num; pure (.ienum (← rep n tok))
+    | _ => if scalarKinds.contains k then pure (.scalar k) else failure
+  partial def pProps : P (List TProp) := do
+    let n ← num
+    rep n (do let name ← tok; let fl ← tok; let t ← pType; pure (name, fl, t))
+end
+
+def hexTok : P Str := do
+  match fromHex (← tok) with
+  | some b => pure b
+  | none => failure
+
+def pMsgs : P Unit := do
+  let n ← num
+  let _ ← rep n (do let _ ← tok; let _ ← pProps; pure ())
+  pure ()
+
+def pSpec : P TSpec := do
+  let pkg ← tok
+  let nS ← num
+  let schemas ← rep nS (do
+    let kind ← tok; let name ← tok
+    if kind == "E" then do let n ← num; let opts ← rep n tok; pure { kind, name, props := [], opts : TSchema }
+    else if kind == "O" || kind == "U" then do pure { kind, name, props := (← pProps), opts := [] : TSchema }
+    else failure)
+  let nV ← num
+  let services ← rep nV (do
+    let name ← tok
+    let b ← tok
+    let base ← if b == "~" then pure none else match fromHex b with
+      | some x => pure (some x)
+      | none => failure
+    let nM ← num
+    let methods ← rep nM (do
+      let name ← tok; let verb ← tok; let path ← hexTok
+      let req ← pProps
+      let hr ← tok
+      let resp ← pProps
+      let l ← tok
+      pure { name, verb, path, req, hasResp := hr == "1", resp, list := l == "1" : TMethod })
+    pure { name, base, methods : TService })
+  let nT ← num
+  let _ ← rep nT (do
+    let kind ← tok; let _ ← tok
+    if kind == "W" || kind == "V" then do let _ ← tok; pure ()
+    pMsgs)
+  let nE ← num
+  let _ ← rep nE (do
+    let _ ← tok
+    let _ ← pProps; let _ ← pProps
+    let n ← num; let _ ← rep n tok
+    pMsgs)
+  if (← get).isEmpty then pure { pkg, schemas, services, nEntities := nE } else failure
+
+/-! ## graph of named schemas (inline schemas hoisted as `<Parent>_<Camel(field)>`) -/
+
+structure NamedNode where
+  key : S                  -- key in the package's schema map ("Name" or "service.Name")
+  kind : RootKind
+  props : List TProp       -- for object / oneof
+  parent : S               -- message name used for naming inline children
+  pfx : S                  -- "" or "service."
+
+def camel (s : S) : S := ofStr (toCamel (strOf s))
+
+/-- all inline schemas below a list of properties of the message `parent` -/
+partial def hoist (pfx parent : S) (props : List TProp) : List NamedNode :=
+  props.foldl (fun acc (name, _, t) => acc ++ hoistType pfx parent name t) []
+where
+  hoistType (pfx parent field : S) : TType → List NamedNode
+    | .arr e => hoistType pfx parent field e
+    | .map e => hoistType pfx parent field e
+    | .iobj ps =>
+      let n := parent ++ "_" ++ camel field
+      { key := pfx ++ n, kind := .object, props := ps, parent := n, pfx } :: hoist pfx n ps
+    | .ione ps =>
+      let n := parent ++ "_" ++ camel field
+      { key := pfx ++ n, kind := .oneof, props := ps, parent := n, pfx } :: hoist pfx n ps
+    | .ienum _ =>
+      let n := parent ++ "_" ++ camel field
+      [{ key := pfx ++ n, kind := .enum, props := [], parent := n, pfx }]
+    | _ => []
+
+def allNodes (sp : TSpec) : List NamedNode :=
+  let top := sp.schemas.foldl (fun acc sc =>
+    let kind := if sc.kind == "O" then RootKind.object else if sc.kind == "U" then .oneof else .enum
+    acc ++ ({ key := sc.name, kind, props := sc.props, parent := sc.name, pfx := "" } :: hoist "" sc.name sc.props)) []
+  let meth := sp.services.foldl (fun acc sv => sv.methods.foldl (fun acc m =>
+    acc ++ hoist "service." (m.name ++ "Request") m.req ++ hoist "service." (m.name ++ "Response") m.resp) acc) []
+  top ++ meth
+
+def unlinked : Nat := 1000000000
+
+def indexOf (nodes : List NamedNode) (key : S) : Nat :=
+  match nodes.findIdx? (·.key == key) with
+  | some i => i
+  | none => unlinked
+
+def lkindOf (t : TType) : LKind :=
+  match t with
+  | .scalar k =>
+    if k == "bool" then .bool
+    else if k == "id62" || k == "uuid" || k == "key" then .key
+    else if k == "f32" || k == "f64" then .float
+    else if k == "i32" || k == "i64" || k == "u32" || k == "u64" then .integer
+    else if k == "ts" then .timestamp
+    else if k == "str" then .string
+    else .other
+  | .ref sub _ => if sub == "e" then .enum else if sub == "u" then .oneof else .other
+  | .ienum _ => .enum
+  | .ione _ => .oneof
+  | _ => .other
+
+def hasFlag (fl : S) (c : Char) : Bool := fl.toList.contains c
+
+partial def fieldOf (nodes : List NamedNode) (pfx parent field : S) : TType → Field
+  | .scalar _ => .scalar
+  | .ref sub n =>
+    let i := indexOf nodes n
+    if sub == "o" then .object i else if sub == "u" then .oneof i else .enum i
+  | .ext _ _ => .object unlinked
+  | .arr e => .array (fieldOf nodes pfx parent field e)
+  | .map e => .map (fieldOf nodes pfx parent field e)
+  | .iobj _ => .object (indexOf nodes (pfx ++ parent ++ "_" ++ camel field))
+  | .ione _ => .oneof (indexOf nodes (pfx ++ parent ++ "_" ++ camel field))
+  | .ienum _ => .enum (indexOf nodes (pfx ++ parent ++ "_" ++ camel field))
+
+def propOf (nodes : List NamedNode) (pfx parent : S) (p : TProp) : Prop' :=
+  let (name, fl, t) := p
+  let rules : LRules := { filter := hasFlag fl 'f', sort := hasFlag fl 's', search := hasFlag fl 'q' }
+  { name := strOf name, field := fieldOf nodes pfx parent name t, tag := (listEffect (lkindOf t) rules).toTag }
+
+def graphOf (nodes : List NamedNode) : Graph :=
+  nodes.map fun n => { kind := n.kind, props := n.props.map (propOf nodes n.pfx n.parent) }
+
+/-! ## summary -/
+
+def csv (xs : List S) (empty : S) : S := if xs.isEmpty then empty else ",".intercalate xs
+
+def verbOf (v : S) : Option Verb :=
+  match v with
+  | "GET" => some .get | "POST" => some .post | "PUT" => some .put
+  | "DELETE" => some .delete | "PATCH" => some .patch | _ => none
+
+def verbStr : Verb → S
+  | .get => "GET" | .post => "POST" | .put => "PUT" | .delete => "DELETE" | .patch => "PATCH"
+
+def names (xs : List Str) : List S := xs.map ofStr
+
+def leafType : TType → TType
+  | .arr e => leafType e
+  | .map e => leafType e
+  | t => t
+
+def listPart (nodes : List NamedNode) (g : Graph) (m : TMethod) : S :=
+  if !m.list then "~" else
+  match m.resp with
+  | (_, _, t) :: _ =>
+    match leafType t with
+    | .ref _ item =>
+      match walk g (indexOf nodes item) with
+      | some (.ok vs) =>
+        let sel (f : Nat → Bool) : S :=
+          let ps := (vs.filter (fun v => f v.tag)).map (fun v => ".".intercalate (names v.path))
+          if ps.isEmpty then "-" else ";".intercalate ps
+        "f=" ++ sel tagFilter ++ "|s=" ++ sel tagSort ++ "|q=" ++ sel tagSearch
+      | some (.err e) => "walk-err:" ++ e
+      | some (.panic w) => "walk-panic:" ++ w
+      | none => "walk-fuel"
+    | _ => "bad-list"
+  | [] => "bad-list"
+
+def methodLine (nodes : List NamedNode) (g : Graph) (tm : TMethod) (cm : CMethod) : S :=
+  let body := match cm.request.body with
+    | none => "~"
+    | some b => csv (names b) "-"
+  let resp := match cm.response with
+    | none => "~"
+    | some r => ofStr r
+  ofStr cm.name ++ " " ++ verbStr cm.verb ++ " " ++ toHexW cm.path ++ " P:" ++ csv (names cm.request.path) "-"
+    ++ " Q:" ++ csv (names cm.request.query) "-" ++ " B:" ++ body ++ " R:" ++ resp ++ " L:" ++ listPart nodes g tm
+
+def declOf (sv : TService) : Option ServiceDecl := do
+  let ms ← sv.methods.mapM fun m => do
+    let v ← verbOf m.verb
+    pure { name := strOf m.name, verb := v, path := m.path, req := m.req.map (fun p => strOf p.1), hasResp := m.hasResp : MethodDecl }
+  pure { name := strOf sv.name, base := sv.base, methods := ms }
+
+def sortStrings (xs : List S) : List S := (xs.toArray.qsort (· < ·)).toList
+
+def chainLine (sp : TSpec) : S :=
+  if sp.nEntities > 0 then "skip" else
+  let nodes := allNodes sp
+  let g := graphOf nodes
+  let pkgSub := strOf (sp.pkg ++ ".service")
+  let svcs := sp.services.map fun sv =>
+    match declOf sv with
+    | none => "[bad-verb]"
+    | some d =>
+      match chainService pkgSub d with
+      | .ok cs =>
+        " [" ++ ofStr cs.name ++ " " ++ toString cs.methods.length
+          ++ String.join ((sv.methods.zip cs.methods).map fun (tm, cm) => " [" ++ methodLine nodes g tm cm ++ "]") ++ "]"
+      | .err e => " [model-err:" ++ e ++ "]"
+      | .panic w => " [model-panic:" ++ w ++ "]"
+  let roots : List Field := sp.services.foldl (fun acc sv => sv.methods.foldl (fun acc m =>
+    acc ++ (m.req.map fun p => (propOf nodes "service." (m.name ++ "Request") p).field)
+        ++ (if m.hasResp then m.resp.map fun p => (propOf nodes "service." (m.name ++ "Response") p).field else [])) acc) []
+  let keys := match collect g roots with
+    | some is => csv (sortStrings (is.filterMap fun i => (nodes[i]?).map (·.key))) "-"
+    | none => "collect-fuel"
+  "ok S" ++ toString sp.services.length ++ String.join svcs ++ " K:" ++ keys
+
+/-! ## kernel ops -/
+
+def hexAll (xs : List S) : Option (List Str) := xs.mapM fromHex
+
+def showPath (o : Outcome Str) : S :=
+  match o with
+  | .ok p => "ok " ++ toHexW p
+  | .err _ => "err"
+  | .panic _ => "panic"
+
+def hexList (xs : List Str) : S := if xs.isEmpty then "-" else ",".intercalate (xs.map toHexW)
+
+def pairs : List Str → List PField
+  | a :: b :: rest => { name := a, json := b } :: pairs rest
+  | _ => []
+
+def nameOp (svc method inp out : Str) : S :=
+  let pkg := b!"k.v1.service"
+  let input : MsgRef := { pkg, name := inp }
+  let output : MsgRef :=
+    if out = httpBodyFull then { pkg := b!"google.api", name := b!"HttpBody" }
+    else if out = emptyFull then { pkg := b!"google.protobuf", name := b!"Empty" }
+    else { pkg, name := out }
+  match classify svc with
+  | .service => if acceptMethod pkg method input output then "service " ++ toHexW output.name else "err"
+  | .topic => if acceptTopicMethod pkg method input output then "topic " ++ toHexW input.name else "err"
+  | .ignored => "ignored"
+  | .unsupported => "err"
+
+/-- graph op: `<root> <n> (<Name> <o|u|e> <k> (<prop> <d|a|m|s> <target|->)*)*` -/
+def pGraph : P (S × List (S × S × List (S × S × S))) := do
+  let root ← tok
+  let n ← num
+  let nodes ← rep n (do
+    let name ← tok; let kind ← tok; let k ← num
+    let props ← rep k (do let p ← tok; let how ← tok; let t ← tok; pure (p, how, t))
+    pure (name, kind, props))
+  if (← get).isEmpty then pure (root, nodes) else failure
+
+def graphOp (toks : List S) : S :=
+  match (pGraph.run toks) with
+  | none => "bad-op"
+  | some ((root, nodes), _) =>
+    let idx (n : S) : Nat := match nodes.findIdx? (·.1 == n) with | some i => i | none => unlinked
+    let kindOf (n : S) : S := match nodes.find? (·.1 == n) with | some x => x.2.1 | none => "?"
+    if kindOf root != "o" then "bad-op" else
+    let g : Graph := nodes.map fun (_, kind, props) =>
+      { kind := if kind == "o" then .object else if kind == "u" then .oneof else .enum,
+        props := props.map fun (p, how, t) =>
+          let base : Field := if how == "s" then .scalar
+            else if kindOf t == "u" then .oneof (idx t) else if kindOf t == "e" then .enum (idx t) else .object (idx t)
+          let f := if how == "a" then Field.array base else if how == "m" then Field.map base else base
+          { name := strOf p, field := f, tag := if how == "s" then 4 else 0 } }
+    let l := match walk g (idx root) with
+      | some (.ok vs) =>
+        let ps := (vs.filter (fun v => tagSearch v.tag)).map (fun v => ".".intercalate (names v.path))
+        some (csv ps "-")
+      | _ => none
+    let k := match collect g [.array (.object (idx root)), .object unlinked] with
+      | some is => some (csv (sortStrings (is.filterMap fun i => (nodes[i]?).map (·.1))) "-")
+      | none => none
+    match l, k with
+    | some l, some k => "ok L:" ++ l ++ " K:" ++ k
+    | _, _ => "err"
+
+def step (line : S) : S :=
+  match line.trimAscii.toString.splitOn " " with
+  | "chain" :: rest =>
+    match pSpec.run rest with
+    | some (sp, _) => chainLine sp
+    | none => "bad-op"
+  | "rw" :: rest =>
+    match hexAll rest with
+    | some (path :: props) => showPath (rewrite props path)
+    | _ => "bad-op"
+  | "pp" :: rest =>
+    match hexAll rest with
+    | some (path :: props) =>
+      match rewrite props path with
+      | .ok pat =>
+        match unrewrite (fieldsOf props) pat with
+        | .ok p => "ok " ++ toHexW p
+        | .err _ => "err-consumer"
+        | .panic _ => "panic-consumer"
+      | .err _ => "err-producer"
+      | .panic _ => "panic-producer"
+    | _ => "bad-op"
+  | "unrw" :: rest =>
+    match hexAll rest with
+    | some (path :: fs) => if fs.length % 2 != 0 then "bad-op" else showPath (unrewrite (pairs fs) path)
+    | _ => "bad-op"
+  | "split" :: verb :: rest =>
+    match verbOf verb, hexAll rest with
+    | some v, some (path :: props) =>
+      let r := fillRequest v.hasBody path props
+      "ok P:" ++ hexList r.path ++ " Q:" ++ hexList r.query ++ " B:" ++ (match r.body with | none => "~" | some b => hexList b)
+    | _, _ => "bad-op"
+  | ["name", a, b, c, d] =>
+    match fromHex a, fromHex b, fromHex c, fromHex d with
+    | some svc, some m, some i, some o => nameOp svc m i o
+    | _, _, _, _ => "bad-op"
+  | "graph" :: rest => graphOp rest
+  | _ => "bad-op"
+
+partial def loop (h : IO.FS.Stream) (out : IO.FS.Stream) : IO Unit := do
+  let line ← h.getLine
+  if line.isEmpty then return ()
+  out.putStrLn (step line)
+  loop h out
+
+def main : IO Unit := do
+  let out ← IO.getStdout
+  loop (← IO.getStdin) out
+  out.flush
